@@ -3,21 +3,24 @@ SHELL := /bin/bash
 COQDIR := coq
 J ?= 16
 
-.PHONY: setup coq coqproject drivers clean
+.PHONY: setup coq coqproject coqproject-locked drivers clean
 
 setup: coq drivers
 
 coqproject:
+	@cd $(COQDIR) && flock .project.lock $(MAKE) -s -C .. coqproject-locked
+
+coqproject-locked:
 	@cd $(COQDIR) && { echo "-Q . Tetl"; echo "-arg -w -arg -notation-overridden,-deprecated-hint-without-locality,-deprecated-instance-without-locality"; find . -name '*.v' -not -path './Gen/*' | sed 's|^\./||' | LC_ALL=C sort; [ -d Gen ] && find Gen -name '*.v' | LC_ALL=C sort; true; } > _CoqProject.new
 	@cd $(COQDIR) && if ! cmp -s _CoqProject.new _CoqProject; then mv _CoqProject.new _CoqProject; coq_makefile -f _CoqProject -o Makefile; else rm -f _CoqProject.new; fi
 	@cd $(COQDIR) && [ -f Makefile ] || coq_makefile -f _CoqProject -o Makefile
 
 coq: coqproject
-	cd $(COQDIR) && flock .build.lock timeout 3000 $(MAKE) -k -j$(J) TIMED=
+	cd $(COQDIR) && timeout 3000 $(MAKE) -k -j$(J)
 
 drivers: coq
 	python3 -c "import sys; sys.path.insert(0,'.'); from vlib import engine; engine.build_all_drivers()"
 
 clean:
-	cd $(COQDIR) && { [ -f Makefile ] && $(MAKE) clean; rm -f Makefile Makefile.conf _CoqProject *.ml *.mli .build.lock; true; }
+	cd $(COQDIR) && { [ -f Makefile ] && $(MAKE) clean; rm -f Makefile Makefile.conf _CoqProject *.ml *.mli .build.lock .project.lock; true; }
 	rm -rf build
